@@ -6,7 +6,9 @@
 use crate::common::*;
 use crate::gen::*;
 use crate::statics;
+use crustabri::sat::verif_hooks::{BufferedSatSolver, DimacsInstanceRead};
 use crustabri::sat::{CadicalSolver, ExternalSatSolver, Literal, SatSolver, SolvingListener, SolvingResult};
+use std::io::Read;
 use std::cell::RefCell;
 use std::rc::Rc;
 
@@ -272,6 +274,162 @@ pub fn run_satobj(rng: &mut Rng, count: usize, thorough: bool, extra: &[String],
     }
 }
 
+
+// ------------------------------------------------------------------------------------ in-process
+// BufferedSatSolver driven directly (crustabri::sat::verif_hooks, cfg(crustabri_verif)): the solving
+// function is a closure of the harness, so the way the instance is READ and the way the reply is
+// DELIVERED can be chosen adversarially, which a child process cannot do (std's read_to_string /
+// the OS pipe decide the chunking there).
+
+pub const READ_POLICIES: [&str; 8] =
+    ["byte", "small-fixed", "random", "preamble", "preamble-1", "preamble+1", "huge", "zero-interleaved"];
+
+/// Reads `r` to the end with the given buffer-size policy.  Returns (bytes, number of read calls).
+/// After the first `Ok(0)` on a non-empty buffer one more read is issued (end of file must be
+/// stable); a zero-length buffer must yield `Ok(0)` and consume nothing.
+fn read_adversarial(r: &mut dyn Read, policy: &str, preamble_len: usize, rng: &mut Rng) -> (Vec<u8>, usize) {
+    let mut all: Vec<u8> = Vec::new();
+    let mut calls = 0usize;
+    let fixed = match policy {
+        "byte" => 1,
+        "small-fixed" => rng.range(2, 17),
+        "preamble" => preamble_len.max(1),
+        "preamble-1" => preamble_len.saturating_sub(1).max(1),
+        "preamble+1" => preamble_len + 1,
+        "huge" => 1 << 20,
+        _ => 0,
+    };
+    let mut buf: Vec<u8> = vec![0u8; (1 << 20).max(fixed)];
+    loop {
+        if policy == "zero-interleaved" && rng.chance(1, 2) {
+            calls += 1;
+            match r.read(&mut buf[..0]) {
+                Ok(0) => {}
+                Ok(n) => all.extend_from_slice(format!("<zero-length read returned {}>", n).as_bytes()),
+                Err(e) => all.extend_from_slice(format!("<read error {}>", e).as_bytes()),
+            }
+        }
+        let sz = if fixed > 0 { fixed } else { rng.range(1, 64) };
+        calls += 1;
+        match r.read(&mut buf[..sz]) {
+            Ok(0) => break,
+            Ok(n) if n <= sz => all.extend_from_slice(&buf[..n]),
+            Ok(n) => {
+                all.extend_from_slice(format!("<read returned {} for a buffer of {}>", n, sz).as_bytes());
+                break;
+            }
+            Err(e) => {
+                all.extend_from_slice(format!("<read error {}>", e).as_bytes());
+                break;
+            }
+        }
+    }
+    // end of file is stable
+    calls += 1;
+    if let Ok(n) = r.read(&mut buf[..7]) {
+        if n > 0 {
+            all.extend_from_slice(b"<data after end of file>");
+            all.extend_from_slice(&buf[..n]);
+        }
+    }
+    (all, calls)
+}
+
+/// Pipes `input` to `prog args..` and returns its standard output (what ExternalSatSolver does,
+/// without the object under test in between).
+fn pipe_through(prog: &str, args: &[String], input: &[u8]) -> Vec<u8> {
+    use std::io::Write;
+    use std::process::{Command, Stdio};
+    let mut child = Command::new(prog)
+        .args(args)
+        .stdin(Stdio::piped())
+        .stdout(Stdio::piped())
+        .stderr(Stdio::null())
+        .spawn()
+        .expect("cannot start the reference solver");
+    let mut stdin = child.stdin.take().unwrap();
+    let data = input.to_vec();
+    let w = std::thread::spawn(move || {
+        let _ = stdin.write_all(&data);
+    });
+    let mut outp = Vec::new();
+    let _ = child.stdout.take().unwrap().read_to_end(&mut outp);
+    let _ = w.join();
+    let _ = child.wait();
+    outp
+}
+
+/// A reader delivering `data` in chunks chosen by a policy (the reply side of the exchange).
+struct ChunkedReply {
+    data: Vec<u8>,
+    pos: usize,
+    policy: usize, // 0 whole, 1 byte by byte, 2 fixed small, 3 random
+    k: usize,
+    rng: Rng,
+}
+impl Read for ChunkedReply {
+    fn read(&mut self, buf: &mut [u8]) -> std::io::Result<usize> {
+        let left = self.data.len() - self.pos;
+        if left == 0 || buf.is_empty() {
+            return Ok(0);
+        }
+        let want = match self.policy {
+            0 => left,
+            1 => 1,
+            2 => self.k,
+            _ => self.rng.range(1, 9),
+        };
+        let n = want.min(left).min(buf.len());
+        buf[..n].copy_from_slice(&self.data[self.pos..self.pos + n]);
+        self.pos += n;
+        Ok(n)
+    }
+}
+
+/// One history on a BufferedSatSolver whose solving function reads the instance adversarially and
+/// asks the reference solver for the reply.  Prints the OUT lines of `dimacs/hist`.
+fn run_hist_inproc(rng: &mut Rng, env: &Env, ops: &[SOp], out: &mut Out) {
+    let log: Rc<RefCell<Vec<(String, usize, Vec<u8>)>>> = Rc::new(RefCell::new(Vec::new()));
+    let pre_len: Rc<RefCell<usize>> = Rc::new(RefCell::new(0));
+    let frng: Rc<RefCell<Rng>> = Rc::new(RefCell::new(Rng::new(rng.next())));
+    let (l2, p2, r2, vdpll) = (log.clone(), pre_len.clone(), frng.clone(), env.vdpll.clone());
+    let f: Box<dyn Fn(DimacsInstanceRead) -> Box<dyn Read>> = Box::new(move |mut inst| {
+        let mut rg = r2.borrow_mut();
+        let policy = *rg.pick(&READ_POLICIES);
+        let (bytes, calls) = read_adversarial(&mut inst, policy, *p2.borrow(), &mut rg);
+        let reply = pipe_through(&vdpll, &[], &bytes);
+        l2.borrow_mut().push((policy.to_string(), calls, bytes));
+        let (pol, k, seed) = (rg.below(4), rg.range(2, 7), rg.next());
+        Box::new(ChunkedReply { data: reply, pos: 0, policy: pol, k, rng: Rng::new(seed) })
+    });
+    let mut s: Box<dyn SatSolver> = Box::new(BufferedSatSolver::new(f));
+    // what the preamble of the next instance should look like (only used to size a buffer)
+    let (mut nv, mut nc) = (0usize, 0usize);
+    for (i, o) in ops.iter().enumerate() {
+        match o {
+            SOp::Add(c) => {
+                nc += 1;
+                for l in c { nv = nv.max(l.unsigned_abs()); }
+            }
+            SOp::Res(n) => nv = nv.max(*n),
+            SOp::Solve(a) => {
+                for l in a { nv = nv.max(l.unsigned_abs()); }
+                *pre_len.borrow_mut() = format!("p cnf {} {}\n", nv, nc + a.len()).len();
+            }
+            SOp::Solve0 => *pre_len.borrow_mut() = format!("p cnf {} {}\n", nv, nc).len(),
+            SOp::NVars => {}
+        }
+        let r = apply_sop(s.as_mut(), o);
+        let stop = r.starts_with("panic");
+        out.out(&format!("ext {} {}", i, r));
+        for (policy, calls, bytes) in log.borrow_mut().drain(..) {
+            out.ev(&format!("{} read {} calls={} len={}", i, policy, calls, bytes.len()));
+            out.out(&format!("inst {} {}", i, hex(&bytes)));
+        }
+        if stop { break; }
+    }
+}
+
 // ------------------------------------------------------------------------------------ dimacs
 
 /// A SatSolver forwarding to an `ExternalSatSolver(vdpll --dump F)`, logging every call and, after
@@ -337,10 +495,18 @@ pub fn run_dimacs(rng: &mut Rng, count: usize, thorough: bool, extra: &[String],
     for k in 0..count {
         let dump = env.file(&format!("dump{}.txt", k));
         let _ = std::fs::remove_file(&dump);
-        if k % 2 == 0 {
+        if k % 3 == 2 {
+            // a history on a BufferedSatSolver driven in-process: adversarial reads of the instance
+            let recipe = if k == 2 && first_shard { "bulk" } else { RECIPES[(k / 3) % RECIPES.len()] };
+            let ops = gen_history(rng, recipe, if thorough { 8 } else { 5 });
+            out.case(&format!("dimacs/hist-inproc/{}", recipe));
+            for o in ops.iter() { out.inp(&o.to_line()); }
+            run_hist_inproc(rng, &env, &ops, out);
+            out.end();
+        } else if k % 3 == 0 {
             // a history on the solver object itself
             // the first history of the first shard is the bulk one (instance text above 64 KiB)
-            let recipe = if k == 0 && first_shard { "bulk" } else { RECIPES[(k / 2) % RECIPES.len()] };
+            let recipe = if k == 0 && first_shard { "bulk" } else { RECIPES[(k / 3) % RECIPES.len()] };
             let ops = gen_history(rng, recipe, if thorough { 8 } else { 5 });
             out.case(&format!("dimacs/hist/{}", recipe));
             for o in ops.iter() { out.inp(&o.to_line()); }
@@ -473,6 +639,13 @@ pub const REPLY_CLASSES: [&str; 17] = [
 /// reply: stub replies through the real reader of `ExternalSatSolver` (program: `vdpll --print-file`).
 pub fn run_reply(rng: &mut Rng, count: usize, _thorough: bool, extra: &[String], out: &mut Out) {
     let env = Env::from_extra(extra);
+    // `--proc-every N`: one case in N goes through a real child process (ExternalSatSolver on
+    // `vdpll --print-file`), the others are returned by the solving function of an in-process
+    // BufferedSatSolver, delivered in chunks of adversarial sizes (default: every case by process)
+    let mut proc_every = 1usize;
+    for i in 0..extra.len() {
+        if extra[i] == "--proc-every" { proc_every = extra[i + 1].parse().unwrap(); }
+    }
     for k in 0..count {
         let class = if rng.chance(1, 2) { REPLY_CLASSES[k % REPLY_CLASSES.len()] } else { *rng.pick(&REPLY_CLASSES) };
         let n = rng.range(0, 9);
@@ -581,6 +754,31 @@ pub fn run_reply(rng: &mut Rng, count: usize, _thorough: bool, extra: &[String],
                 }
                 if rng.chance(1, 6) { bytes.extend_from_slice(b"v 99999999999999999999 0\n"); }
             }
+        }
+        if proc_every > 1 && k % proc_every != 0 {
+            out.case(&format!("reply-inproc/{}", class));
+            out.inp(&format!("nvars {}", n));
+            out.inp(&format!("bytes {}", hex(&bytes)));
+            out.inp(&format!("expect {}", expect));
+            let (pol, kk, seed, rd) = (rng.below(4), rng.range(2, 7), rng.next(), rng.chance(1, 2));
+            out.inp(&format!("delivery {}", ["whole", "byte", "fixed", "random"][pol]));
+            let data = bytes.clone();
+            let f: Box<dyn Fn(DimacsInstanceRead) -> Box<dyn Read>> = Box::new(move |mut inst| {
+                if rd {
+                    let mut sink = Vec::new();
+                    let _ = inst.read_to_end(&mut sink);
+                }
+                Box::new(ChunkedReply { data: data.clone(), pos: 0, policy: pol, k: kk, rng: Rng::new(seed) })
+            });
+            let mut s = BufferedSatSolver::new(f);
+            s.reserve(n);
+            let r = guarded(|| result_to_string(&s.solve()));
+            match r {
+                Ok(x) => out.out(&x),
+                Err(msg) => out.out(&format!("panic {}", msg)),
+            }
+            out.end();
+            continue;
         }
         let f = env.file(&format!("reply{}.txt", k));
         std::fs::write(&f, &bytes).unwrap();
